@@ -492,6 +492,7 @@ type vkCrashJob struct {
 	local  int // occurrence within the interrupted step
 	pre    vkState
 	wlPath string
+	torn   int                      // >= 0: torn write, that many complete records of the batch kept; -1: none
 	rcs    []map[string]interface{} // further crashes during recovery: [{"p":..,"n":..}]
 	rhits  map[string]int           // crash points the (uncrashed) recovery passed
 	events []vkEvent
@@ -544,6 +545,15 @@ func vkRunCrashJob(j *vkCrashJob, root string) {
 		j.note = fmt.Sprintf("nondeterministic: worker completed %d steps, profile says %d", len(jb), j.opIdx)
 		return
 	}
+	// torn write: the kill came inside the write call of the message set. The directory is
+	// the one at append.after_log_write (log written, index not) with the tail of the active
+	// segment's log file cut in the middle of a record of the batch.
+	if j.torn >= 0 {
+		if err := vkTear(dir, len(vList(j.wl.Steps[j.opIdx], "recs")), j.torn); err != nil {
+			j.note = "infra:tear:" + err.Error()
+			return
+		}
+	}
 	// further crashes during recovery: a process that only reopens the directory
 	// and is killed in front of the given crash point of New
 	for _, rc := range j.rcs {
@@ -576,7 +586,7 @@ func vkRunCrashJob(j *vkCrashJob, root string) {
 	obsCmd := exec.Command(os.Args[0], "-test.run=^TestVerifCrash$")
 	obsCmd.Env = append(os.Environ(), "VERIF_CRASH_OBSERVER=1", "VERIF_WL="+j.wlPath, "VERIF_DIR="+dir,
 		"VERIF_EVENTS="+evPath, fmt.Sprintf("VERIF_JOB=%d:%d:%d:%s", j.tid, j.opIdx, j.local, j.point),
-		"VERIF_RCS="+vkJSON(j.rcs))
+		"VERIF_RCS="+vkJSON(j.rcs), fmt.Sprintf("VERIF_TORN=%d", j.torn))
 	var oout bytes.Buffer
 	obsCmd.Stdout, obsCmd.Stderr = &oout, &oout
 	if err := obsCmd.Start(); err != nil {
@@ -638,7 +648,7 @@ func vkRunCrashJob(j *vkCrashJob, root string) {
 	}
 	if how != "" {
 		// the step the observer was executing did not return
-		seq := [][2]interface{}{{"CrashRecover", map[string]interface{}{"op": j.wl.Steps[j.opIdx], "p": j.point, "n": j.local, "rcs": vkRcs(j.rcs)}}}
+		seq := [][2]interface{}{{"CrashRecover", map[string]interface{}{"op": j.wl.Steps[j.opIdx], "p": j.point, "n": j.local, "torn": j.torn, "rcs": vkRcs(j.rcs)}}}
 		for _, st := range j.wl.Post {
 			seq = append(seq, [2]interface{}{vStr(st, "a"), st})
 		}
@@ -685,7 +695,8 @@ func vkObserver(t *testing.T) {
 	json.Unmarshal([]byte(os.Getenv("VERIF_RCS")), &rcs)
 	rhits := map[string]int{}
 	VerifCrashHook = func(name string) { rhits[name]++ }
-	args := map[string]interface{}{"op": wl.Steps[opIdx], "p": point, "n": local, "rcs": vkRcs(rcs), "rhits": rhits}
+	args := map[string]interface{}{"op": wl.Steps[opIdx], "p": point, "n": local, "torn": vkEnvInt("VERIF_TORN", -1),
+		"rcs": vkRcs(rcs), "rhits": rhits}
 	err = run.open()
 	VerifCrashHook = nil
 	if err != nil {
@@ -703,6 +714,34 @@ func vkObserver(t *testing.T) {
 		ev(vStr(st, "a"), eff, vkProject(run.l, dir), obs)
 	}
 	os.Exit(0)
+}
+
+// vkTear cuts the newest segment's log file so that of the nrecs records written
+// last only keep complete ones and half of the next one remain.
+func vkTear(dir string, nrecs, keep int) error {
+	files, err := os.ReadDir(dir)
+	if err != nil {
+		return err
+	}
+	name := ""
+	for _, f := range files {
+		if strings.HasSuffix(f.Name(), logSuffix) && f.Name() > name {
+			name = f.Name()
+		}
+	}
+	if name == "" {
+		return fmt.Errorf("no log file")
+	}
+	path := filepath.Join(dir, name)
+	info, err := os.Stat(path)
+	if err != nil {
+		return err
+	}
+	size := info.Size() - int64(nrecs-keep)*vUnit + vUnit/2
+	if size <= 0 || size >= info.Size() {
+		return fmt.Errorf("cannot tear %s: size %d, %d records, keep %d", name, info.Size(), nrecs, keep)
+	}
+	return os.Truncate(path, size)
 }
 
 func vkJSON(v interface{}) string {
@@ -756,6 +795,7 @@ func TestVerifCrash(t *testing.T) {
 	par := vkEnvInt("VERIF_PAR", 6)
 	only := os.Getenv("VERIF_ONLY") // "point:n" restricts the crash runs (replay)
 	dedup := os.Getenv("VERIF_DEDUP") != ""
+	torn := os.Getenv("VERIF_TORN_JOBS") != ""
 	seenJob := map[[20]byte]bool{}
 	tid := 0
 	jobs := []*vkCrashJob{}
@@ -821,7 +861,15 @@ func TestVerifCrash(t *testing.T) {
 					}
 					tid++
 					jobs = append(jobs, &vkCrashJob{tid: tid, wl: wl, point: name, global: g, opIdx: i, local: n,
-						pre: states[i], wlPath: wlPath})
+						pre: states[i], wlPath: wlPath, torn: -1})
+					// torn writes of an append: the same kill with the log tail cut inside the batch
+					if a := vStr(st, "a"); torn && name == "append.after_log_write" && (a == "Append" || a == "AppendSet") && n == 1 {
+						for k := 0; k < len(vList(st, "recs")); k++ {
+							tid++
+							jobs = append(jobs, &vkCrashJob{tid: tid, wl: wl, point: name, global: g, opIdx: i, local: n,
+								pre: states[i], wlPath: wlPath, torn: k})
+						}
+					}
 				}
 				total[name] += hits[name]
 			}
@@ -901,7 +949,7 @@ func TestVerifCrash(t *testing.T) {
 			seen2[key] = true
 			tid++
 			second = append(second, &vkCrashJob{tid: tid, wl: c.j.wl, point: c.j.point, global: c.j.global, opIdx: c.j.opIdx,
-				local: c.j.local, pre: c.j.pre, wlPath: c.j.wlPath,
+				local: c.j.local, pre: c.j.pre, wlPath: c.j.wlPath, torn: c.j.torn,
 				rcs: []map[string]interface{}{{"p": c.name, "n": float64(c.n)}}})
 		}
 		ch2 := make(chan *vkCrashJob)
@@ -944,6 +992,9 @@ func TestVerifCrash(t *testing.T) {
 		}
 		stats["crash_runs"]++
 		stats["point:"+j.point]++
+		if j.torn >= 0 {
+			stats["torn_runs"]++
+		}
 		for _, e := range j.events {
 			tw.Emit(e)
 		}
